@@ -316,13 +316,23 @@ func runC07(c *Ctx) {
 		if mutation && lf.kind == 2 {
 			lf.kind = 0 // an observer keeps the marshaler itself, not its value
 		}
+		// every leaf enables the levels the program logs at (info, warn), but
+		// not necessarily by a plain threshold: "low priority only" enablers
+		// (as in zap's own advanced-configuration example) reject error and up
+		var enab zapcore.LevelEnabler = zapcore.DebugLevel
+		switch g.Draw(4) {
+		case 1:
+			enab = zap.LevelEnablerFunc(func(l zapcore.Level) bool { return l < zapcore.ErrorLevel })
+		case 2:
+			enab = zap.NewAtomicLevelAt(zapcore.InfoLevel)
+		}
 		switch lf.kind {
 		case 0, 1:
 			lf.sink = zsim.NewSimSink(r, fmt.Sprintf("leaf%d", i), 1, uint64(i)+5)
 			r.Label(unsafe.Pointer(lf.sink), lf.sink.Name)
-			cores = append(cores, zapcore.NewCore(newEncoder(lf.kind == 1), zapcore.Lock(lf.sink), zapcore.DebugLevel))
+			cores = append(cores, zapcore.NewCore(newEncoder(lf.kind == 1), zapcore.Lock(lf.sink), enab))
 		case 2:
-			oc, logs := observer.New(zapcore.DebugLevel)
+			oc, logs := observer.New(enab)
 			lf.logs = logs
 			cores = append(cores, oc)
 		}
